@@ -163,6 +163,13 @@ def check_faithful(b):
         stripped = strip_annotations(seg)
         got = L.sigtext(L.lex(stripped))
         want = b.fns[fid]["norm"]
+        c = b.contracts.get(fid)
+        if c is not None and c.external_body:
+            # only the signature is copied
+            sig_end = got.rfind("{")
+            if not want.startswith(got[:sig_end].strip()):
+                raise ExtractError(f"extraction not faithful for the signature of assumed fn {fid}")
+            continue
         if got != want:
             # locate first difference
             g, w = got.split(" "), want.split(" ")
